@@ -50,3 +50,21 @@ fn centroids_are_means_with_old() {
         assert!(new[(k, 0)] == (sum as f32) / (cnt as f32));
     }
 }
+
+#[kani::proof]
+#[kani::unwind(5)]
+#[kani::stub(alloc::fmt::format, fmt_stub)]
+fn incremental_centroid_recurrence() {
+    let x: [i8; 2] = kani::any(); let c: [i8; 2] = kani::any(); let cnt: [u8; 2] = kani::any();
+    for i in 0..2 { kani::assume(x[i] >= -8 && x[i] <= 8 && c[i] >= -8 && c[i] <= 8 && cnt[i] <= 3); }
+    let obs = Array2::from_shape_vec((2, 1), vec![x[0] as f32, x[1] as f32]).unwrap();
+    let old = Array2::from_shape_vec((2, 1), vec![c[0] as f32, c[1] as f32]).unwrap();
+    let mem = Array1::from(vec![0usize, 0usize]);
+    let mut counts = Array1::from(vec![cnt[0] as f32, cnt[1] as f32]);
+    let new = compute_centroids_incremental(&obs, &mem, &old, &mut counts);
+    assert!(counts[0] == cnt[0] as f32 + 2.0 && counts[1] == cnt[1] as f32);
+    assert!(new[(1, 0)] == c[1] as f32);
+    let c1 = c[0] as f32 + (x[0] as f32 - c[0] as f32) / (cnt[0] as f32 + 1.0);
+    let c2 = c1 + (x[1] as f32 - c1) / (cnt[0] as f32 + 2.0);
+    assert!(new[(0, 0)] == c2);
+}
